@@ -2,6 +2,9 @@
 Proofs behind Props/C13.lean (connection lifecycle) and Props/C01.lean (robustness).
 -/
 import Strophe.Model.ConnOps
+import Strophe.Lemmas.ConnC13Inv
+import Strophe.Lemmas.ConnC13Timed
+import Strophe.Lemmas.ConnC13Good
 
 namespace Strophe.Lemmas.ConnC13
 open Strophe Strophe.Conn
@@ -20,11 +23,38 @@ def isConnecting (c : Conn) : Bool := c.state = .connecting || (c.state = .conne
 def isConnected (c : Conn) : Bool := c.state = .connected && c.negotiated
 def isDisconnected (c : Conn) : Bool := c.state = .disconnected
 
+theorem isDisconnectEv_eq (e : Ev) : isDisconnectEv e = isDisc e := by cases e <;> rfl
+theorem isConnectEv_eq (e : Ev) : isConnectEv e = isConn e := by cases e <;> rfl
+
+theorem auth_noTls (c : Conn) (h : c.tlsSupport = false) (m : Nat) : auth c (m + 1) = auth c 1 := by
+  have e1 := auth.eq_2 c m
+  have e2 := auth.eq_2 c 0
+  have h1 : ¬ c.tlsSupport = true := by simp [h]
+  rw [e1, e2, if_neg h1, if_neg h1]
+
+theorem auth_succ_succ (c : Conn) (m : Nat) : auth c (m + 2) = auth c 2 := by
+  have e1 := auth.eq_2 c (m + 1)
+  have e2 := auth.eq_2 c 1
+  rw [e1, e2]
+  by_cases h1 : c.tlsSupport = true
+  · rw [if_pos h1, if_pos h1]
+    by_cases h2 : c.tlsNewFail = true
+    · rw [if_pos h2, if_pos h2, auth_noTls _ rfl, auth_noTls _ rfl 0]
+    · rw [if_neg h2, if_neg h2]
+  · rw [if_neg h1, if_neg h1]
+
 theorem one_disconnect_per_attempt (jid pass : Option Bytes) (cert : Bool) (flags : Nat)
     (ops : List Op) (a : Nat) :
     (((exec (fresh jid pass cert flags) ops).evs.filter
         fun p => p.1.attempt = a && isDisconnectEv p.2).length) ≤ 1 := by
-  sorry
+  have hf : (fun p : Ghost × Ev => decide (p.1.attempt = a) && isDisconnectEv p.2) =
+      (fun p => decide (p.1.attempt = a) && isDisc p.2) := by
+    funext p; rw [isDisconnectEv_eq]
+  rw [hf]
+  rcases Inv_reach jid pass cert flags ops with h | ⟨a', h⟩
+  · have : (exec (fresh jid pass cert flags) ops).evs = [] := h.hevs
+    rw [this]; simp
+  · exact h.hcnt a
 
 /-- an accepted attempt that has ended produced exactly one disconnect notification, a running one
     none yet; before the first accepted connect there is nothing to report -/
@@ -33,68 +63,151 @@ theorem ended_iff_notified (jid pass : Option Bytes) (cert : Bool) (flags : Nat)
     (c.g.attempt = 0 → c.state = .disconnected ∧ c.evs = []) ∧
     (0 < c.g.attempt → (c.state = .disconnected → c.g.notifiedDisconnect = 1) ∧
                         (c.state ≠ .disconnected → c.g.notifiedDisconnect = 0)) := by
-  sorry
+  intro c
+  rcases Inv_reach jid pass cert flags ops with h | ⟨a', h⟩
+  · refine ⟨fun _ => ⟨h.hst, h.hevs⟩, fun hp => ?_⟩
+    have : c.g.attempt = 0 := h.hatt
+    omega
+  · have hatt : c.g.attempt = a' := h.hatt
+    have hpos := h.hpos
+    have hnd : c.g.notifiedDisconnect = if c.state = .disconnected then 1 else 0 := h.hnd
+    refine ⟨fun h0 => by omega, fun _ => ⟨fun hs => by rw [hnd, if_pos hs], fun hs => by rw [hnd, if_neg hs]⟩⟩
 
-/-- "connected" is never reported after the disconnect of the same attempt -/
+/-- "connected" is never reported after the disconnect of the same attempt.
+
+    Stanza handlers only start while the connection is not disconnected (`_handle_stream_stanza`),
+    but inside ONE dispatch (`handler_fire_stanza`) a handler can still `conn_disconnect` directly
+    (`_auth` when TLS is mandatory and missing, reached from `_handle_features` and from
+    `_handle_sasl_result` on "failure") and a LATER handler of the same dispatch could complete the
+    negotiation.  That is excluded only because
+    (a) a direct disconnect happens only for the element names "features" / "failure", while the
+        non-id handlers complete the negotiation only for "enabled" / "resumed" / "failed" /
+        "handshake";
+    (b) `_handle_features` is registered only with the name filter "features";
+    (c) the id handlers (bind / session / legacy auth), which complete the negotiation whatever
+        the element name, run BEFORE the other handlers and never disconnect directly.
+    Invariants behind the proof (Lemmas/ConnC13Good.lean): `HL` (what sits in which handler list),
+    `G` (this property), and the lifecycle invariant `J` (Lemmas/ConnC13Inv.lean). -/
 theorem connect_before_disconnect (jid pass : Option Bytes) (cert : Bool) (flags : Nat)
     (ops : List Op) :
     ∀ p ∈ (exec (fresh jid pass cert flags) ops).evs, isConnectEv p.2 = true →
       p.1.notifiedDisconnect = 0 := by
-  sorry
+  intro p hp hc
+  rw [isConnectEv_eq] at hc
+  exact good_reach jid pass cert flags ops p hp hc
 
 /-- the attempt number recorded with a notification is that of an accepted connect -/
 theorem events_belong_to_attempts (jid pass : Option Bytes) (cert : Bool) (flags : Nat)
     (ops : List Op) :
     ∀ p ∈ (exec (fresh jid pass cert flags) ops).evs,
       0 < p.1.attempt ∧ p.1.attempt ≤ (exec (fresh jid pass cert flags) ops).g.attempt := by
-  sorry
+  intro p hp
+  rcases Inv_reach jid pass cert flags ops with h | ⟨a', h⟩
+  · have : (exec (fresh jid pass cert flags) ops).evs = [] := h.hevs
+    rw [this] at hp; cases hp
+  · have hatt : (exec (fresh jid pass cert flags) ops).g.attempt = a' := h.hatt
+    rw [hatt]; exact h.hev p hp
 
 theorem predicates_partition (c : Conn) :
     (isConnecting c && !isConnected c && !isDisconnected c) ||
     (!isConnecting c && isConnected c && !isDisconnected c) ||
     (!isConnecting c && !isConnected c && isDisconnected c) = true := by
-  sorry
+  unfold isConnecting isConnected isDisconnected
+  cases c.state <;> cases c.negotiated <;> decide
 
 /-- the predicates agree with the notifications -/
 theorem predicates_agree (jid pass : Option Bytes) (cert : Bool) (flags : Nat) (ops : List Op) :
     let c := exec (fresh jid pass cert flags) ops
     (isConnected c = true → c.g.notifiedConnect = true ∧ c.g.notifiedDisconnect = 0) ∧
     (isDisconnected c = true → c.g.attempt = 0 ∨ c.g.notifiedDisconnect = 1) := by
-  sorry
+  intro c
+  rcases Inv_reach jid pass cert flags ops with h | ⟨a', h⟩
+  · have hst : c.state = .disconnected := h.hst
+    refine ⟨fun hc => ?_, fun _ => .inl h.hatt⟩
+    simp [isConnected, hst] at hc
+  · have hnd : c.g.notifiedDisconnect = if c.state = .disconnected then 1 else 0 := h.hnd
+    have hneg : c.negotiated = true → c.g.notifiedConnect = true := h.hneg
+    refine ⟨fun hc => ?_, fun hd => ?_⟩
+    · simp only [isConnected, Bool.and_eq_true, decide_eq_true_eq] at hc
+      refine ⟨hneg hc.2, ?_⟩
+      rw [hnd, if_neg (by simp [hc.1])]
+    · simp only [isDisconnected, decide_eq_true_eq] at hd
+      right; rw [hnd, if_pos hd]
 
 /-- a timed handler is not invoked before its period has elapsed since it was registered, re-armed
     or last fired: one pass of `handler_fire_timed` leaves it untouched -/
 theorem timed_not_early (c : Conn) (t : Timed) (ht : t ∈ c.timed) (hn : (c.timed.map (·.uid)).Nodup)
     (h : c.now - t.lastStamp < t.period) :
-    ∃ t' ∈ (fireTimed c).timed, t'.uid = t.uid ∧ t'.lastStamp = t.lastStamp ∧ t'.fn = t.fn := by
-  sorry
+    ∃ t' ∈ (fireTimed c).timed, t'.uid = t.uid ∧ t'.lastStamp = t.lastStamp ∧ t'.fn = t.fn :=
+  timed_not_early' c t ht hn h
 
 /-- … and is invoked by the next pass once due (then it is re-stamped with the current time or,
-    if it returned false, removed) -/
-theorem timed_fires_when_due (c : Conn) (t : Timed) (ht : t ∈ c.timed)
+    if it returned false, removed).  As a statement about ONE pass from an ARBITRARY state this
+    needs one more fact about `c`: the uid counter is ahead of the handler's
+    uid (`_partial`: with that hypothesis).  Without it the statement is false: a handler that fires
+    earlier in the same pass may register a new timed handler (`xmpp_disconnect` → `_disconnect_cleanup`)
+    which then receives the SAME uid as `t`, is found first by the loop and is not yet enabled, so
+    `t` is skipped — see the `example` below.  The model hands out uids from `nextUid`, so this
+    cannot happen in a reachable state (`timed_uids_fresh`, `timed_fires_when_due_reachable`). -/
+theorem timed_fires_when_due_partial (c : Conn) (t : Timed) (ht : t ∈ c.timed)
     (hn : (c.timed.map (·.uid)).Nodup) (hs : c.state = .connected)
-    (hu : t.user = false) (h : c.now - t.lastStamp ≥ t.period) :
-    ∀ t' ∈ (fireTimed c).timed, t'.uid = t.uid → t'.lastStamp = c.now := by
-  sorry
+    (hu : t.user = false) (h : c.now - t.lastStamp ≥ t.period) (hfresh : t.uid < c.nextUid) :
+    ∀ t' ∈ (fireTimed c).timed, t'.uid = t.uid → t'.lastStamp = c.now :=
+  timed_fires_when_due' c t ht hn hs hu h hfresh
+
+/-- every uid in use is below the uid counter, in every reachable state -/
+theorem timed_uids_fresh (jid pass : Option Bytes) (cert : Bool) (flags : Nat) (ops : List Op) :
+    ∀ x ∈ (exec (fresh jid pass cert flags) ops).timed, x.uid < (exec (fresh jid pass cert flags) ops).nextUid := by
+  rcases Inv_reach jid pass cert flags ops with h | ⟨a', h⟩
+  · exact h.htu
+  · exact h.htu
+
+/-- … and is invoked by the next pass once due (then it is re-stamped with the current time or,
+    if it returned false, removed): in every reachable state, without further hypotheses (the
+    one-pass statement for arbitrary states is false, see `timed_fires_when_due_partial` and the
+    `example` below) -/
+theorem timed_fires_when_due (jid pass : Option Bytes) (cert : Bool) (flags : Nat) (ops : List Op)
+    (t : Timed) :
+    let c := exec (fresh jid pass cert flags) ops
+    t ∈ c.timed → c.state = .connected → t.user = false → c.now - t.lastStamp ≥ t.period →
+      ∀ t' ∈ (fireTimed c).timed, t'.uid = t.uid → t'.lastStamp = c.now := by
+  intro c ht hs hu h
+  have hn : (c.timed.map (·.uid)).Nodup := by
+    rcases Inv_reach jid pass cert flags ops with h | ⟨a', h⟩
+    · exact h.htn
+    · exact h.htn
+  exact timed_fires_when_due' c t ht hn hs hu h (timed_uids_fresh jid pass cert flags ops t ht)
+
+/-- the counterexample to the one-pass statement without `hfresh` (an UNREACHABLE state: uid 2 is in use
+    although the counter is at 1): after the pass the due handler (uid 2, `missingSession`) still
+    carries its old stamp 0 -/
+example :
+    let t : Timed := { uid := 2, fn := TFun.missingSession, period := 10, lastStamp := 0 }
+    let t5 : Timed := { uid := 5, fn := TFun.missingBind, period := 10, lastStamp := 0 }
+    let c : Conn := { state := CState.connected, nextUid := 1, timed := [t5, t] }
+    (c.timed.map (·.uid)).Nodup ∧ c.state = .connected ∧ t.user = false ∧ c.now - t.lastStamp ≥ t.period ∧
+    ((fireTimed c).timed.map fun x => (x.uid, x.lastStamp)) = [(2, 1000000), (2, 0)] := by decide
 
 /-- timed handlers of a connection only run while it is connected -/
 theorem timed_only_connected (c : Conn) (h : c.state ≠ .connected) : fireTimed c = c := by
-  sorry
+  unfold fireTimed; simp [h]
 
 /-- uids of timed handlers are pairwise distinct in every reachable state -/
 theorem timed_uids_nodup (jid pass : Option Bytes) (cert : Bool) (flags : Nat) (ops : List Op) :
     ((exec (fresh jid pass cert flags) ops).timed.map (·.uid)).Nodup := by
-  sorry
+  rcases Inv_reach jid pass cert flags ops with h | ⟨a', h⟩
+  · exact h.htn
+  · exact h.htn
 
 /-- settings that only make sense offline are refused unless disconnected -/
 theorem flags_offline_only (c : Conn) (f : Nat) (h : c.state ≠ .disconnected) :
     setFlags c f = (c, xmppEInvOp) := by
-  sorry
+  unfold setFlags; simp [h]
 
 /-- a second connect on a connection that is not disconnected is refused and changes nothing -/
 theorem connect_refused_unless_disconnected (c : Conn) (d : Bytes) (t : CType)
     (h : c.state ≠ .disconnected) : connConnect c d t = (c, xmppEInvOp) := by
-  sorry
+  unfold connConnect; simp [h]
 
 /-- a stream error sent by the server is reported with its condition and text in the disconnect
     notification: `_handle_error` stores (condition, text) … -/
@@ -104,13 +217,22 @@ theorem stream_error_stored (c : Conn) (cond : Bytes) (i : Nat) (txt : Bytes)
     (handleError c (.tag (b "error") (some Gen.nsStreams) []
         [.tag cond (some Gen.nsStreamsIetf) [] [],
          .tag (b "text") (some Gen.nsStreamsIetf) [] [.text txt]])).streamError = some (i, some txt) := by
-  sorry
+  have e1 : (XTree.tag cond (some Gen.nsStreamsIetf) [] []).name?.getD [] = cond := rfl
+  have e2 : (XTree.tag (b "text") (some Gen.nsStreamsIetf) [] [.text txt]).name?.getD [] = b "text" := rfl
+  have e3 : (XTree.tag (b "text") (some Gen.nsStreamsIetf) [] [.text txt]).getText = some txt := by
+    simp [XTree.getText, htxt]
+  unfold handleError
+  simp only [XTree.children, List.foldl, XTree.ns?, if_true]
+  rw [e1, e2, e3, hc]
+  simp [hne]
 
 /-- … and the disconnect notification carries what is stored -/
 theorem disconnect_reports_stream_error (c : Conn) (h : c.state ≠ .disconnected) :
     (connDisconnect c).evs =
       c.evs ++ [(c.g, .disconnect c.error (c.streamError.map (·.1)) (c.streamError.bind (·.2)))] := by
-  sorry
+  unfold connDisconnect; simp only [h, if_false]
+  unfold notify resetSmForReconnect
+  split <;> rfl
 
 /-! ### C01 -/
 
@@ -118,11 +240,13 @@ theorem disconnect_reports_stream_error (c : Conn) (h : c.state ≠ .disconnecte
     model has none left; this theorem keeps it that way) -/
 theorem no_crash (jid pass : Option Bytes) (cert : Bool) (flags : Nat) (ops : List Op) :
     (exec (fresh jid pass cert flags) ops).crash = none := by
-  sorry
+  rcases Inv_reach jid pass cert flags ops with h | ⟨a', h⟩
+  · exact h.hcrash
+  · exact h.hcrash
 
 /-- the fuel of `_auth`'s self-recursion (one retry when TLS cannot be initialised) suffices -/
 theorem auth_fuel_enough (c : Conn) (n : Nat) : auth c (n + 3) = auth c 3 := by
-  sorry
+  rw [auth_succ_succ c (n+1), auth_succ_succ c 1]
 
 /-- a disconnected connection object can be connected again: the call is accepted whenever the
     API's own preconditions hold -/
@@ -131,10 +255,24 @@ theorem reconnectable (jid pass : Option Bytes) (cert : Bool) (flags : Nat) (ops
     c.state = .disconnected → c.jid.isSome → c.tcpFail = false →
       (connectClient c).2 = 0 ∧ (connectClient c).1.state = .connecting ∧
       (connectClient c).1.queue = [] := by
-  sorry
+  intro c hs hj ht
+  cases hjid : c.jid with
+  | none => simp [hjid] at hj
+  | some j =>
+    have hr : ¬ c.state ≠ .disconnected := by simp [hs]
+    unfold connectClient
+    simp only [hjid]
+    split <;>
+      simp [connConnect, connReset, systemDeleteAll, prepareReset, hs, ht]
 
 /-- releasing ends a running attempt with its (single) disconnect notification -/
 theorem release_disconnects (c : Conn) : (release c).state = .disconnected := by
-  sorry
+  unfold release connDisconnect
+  split
+  · split
+    · assumption
+    · rfl
+  · rename_i h
+    cases hs : c.state <;> simp_all
 
 end Strophe.Lemmas.ConnC13
